@@ -35,7 +35,7 @@
    see docs/C03.md. *)
 From Coq Require Import List ZArith Bool Arith.
 From SC Require Import Base.Res Base.PyList Inst.Heap Inst.ClassTable Inst.Model Inst.TypeProofs Inst.TypeCopy
-  Inst.OwnProofs Inst.OwnProofs2 Inst.OwnProofs3 Inst.OwnColl.
+  Inst.OwnProofs Inst.OwnProofs2 Inst.OwnProofs3 Inst.OwnColl Inst.OwnCopy Inst.OwnCow Inst.OwnAll.
 Import ListNotations.
 Open Scope nat_scope.
 
@@ -384,23 +384,85 @@ Theorem C03_without_item_inplace_preserves_owned :
     Inv ct (heap (snd (step ct roots (OpHelper x (HWithoutItem a) hh) s))).
 Proof. exact step_without_item_inplace_coll. Qed.
 
-(* the combined statement, with the operations covered as a computable predicate (owned_opc_b,
-   coq/Inst/OwnColl.v: obj.a = v and with_<a>(v, _inplace=True) with a fresh argument;
-   with_<item>(.., _inplace=True) and without_<item>(.., _inplace=True) with any arguments;
-   all on leaf collection attributes of the three families; the caller building a container
-   of scalars).  PARTIAL: the full statement quantifies over every operation (constructor,
-   del, update_/transform_/reset_, copy-on-write forms) and every flat table (preparers,
-   invalidated_by, nested spec classes as elements). *)
+(* ---------------- 7. deepcopy and the copy-on-write forms (OwnCopy.v, OwnCow.v) ----------------
+   A FLAT INSTANCE (FI): every reference held by its dict is to a container of non-references
+   that nobody else references (reference count 1) and is not do_not_copy; its class is copied
+   normally.  An instance of a flat class (scalar and scalar-collection attributes only, no
+   do_not_copy, no __post_copy__) with managed keys is flat as soon as TypeInv /\ Owned holds
+   (FI_of_Inv). *)
+(* the deep copy of a flat instance: TypeInv /\ Owned is preserved, the copy is a fresh flat
+   instance nobody references, and the cells that existed keep their content AND their
+   reference counts (frame_rel): the copy shares nothing with the original *)
+Theorem C03_deepcopy_flat_instance :
+  forall ct, flat_table ct -> forall f l s cl (d : list (nat * val)) k,
+    Inv ct (heap s) -> FI ct (heap s) l cl d k ->
+    match dc ct (S (S (S f))) (VRef l) [] s with
+    | (Ok r, s') =>
+        exists new d', fst r = VRef new /\ length (heap s) <= new /\
+          frame_rel (length (heap s)) (heap s) (heap s') /\ Inv ct (heap s') /\
+          FI ct (heap s') new cl d' k /\ map fst d' = map fst d /\ refcount (heap s') new = 0
+    | (Err _, s') => CE ct (heap s) (heap s')
+    end.
+Proof. exact dc_instance. Qed.
+
+(* mutate_attr(..., inplace=False): deep copy of the receiver, _thawed(copy) (frozen classes
+   included), store into the copy *)
+Theorem C03_mutate_attr_copy_on_write :
+  forall ct, flat_table ct -> no_inval_table ct -> no_reserved_names ct ->
+  forall rec l a v tc s cl (d : list (nat * val)) k,
+    Inv ct (heap s) -> FI ct (heap s) l cl d k -> loose (heap s) v ->
+    (tc = false -> forall sp, lookup_attr k a = Some sp -> check_type FUEL ct (heap s) v (a_ty sp) = true) ->
+    Inv ct (heap (snd (mutate_attr ct rec l a v false tc false false s))).
+Proof. exact mutate_attr_cow. Qed.
+
+Theorem C03_with_copy_on_write :
+  forall ct, flat_table ct -> no_inval_table ct -> no_reserved_names ct ->
+  forall l a hh s cl d k,
+    h_inplace hh = false -> h_kw hh = None ->
+    Inv ct (heap s) -> loose (heap s) (pos0 hh) -> flat_recv ct l (heap s) cl d k ->
+    (forall sp, lookup_attr k a = Some sp -> leaf_attr sp) ->
+    Inv ct (heap (snd (run_helper ct l (HWith a) hh s))).
+Proof. exact with_cow. Qed.
+
+Theorem C03_with_item_copy_on_write :
+  forall ct, flat_table ct -> no_inval_table ct -> no_reserved_names ct ->
+  forall l a hh s cl d k,
+    h_inplace hh = false -> h_kw hh = None ->
+    Inv ct (heap s) -> flat_recv ct l (heap s) cl d k ->
+    (forall sp, lookup_attr k a = Some sp -> exists fam, leaf_coll sp fam) ->
+    (assoc a d = None -> class_default k a = VMissing) ->
+    Inv ct (heap (snd (run_helper ct l (HWithItem a) hh s))).
+Proof. exact with_item_cow. Qed.
+
+Theorem C03_without_item_copy_on_write :
+  forall ct, flat_table ct -> no_inval_table ct -> no_reserved_names ct ->
+  forall l a hh s cl d k,
+    h_inplace hh = false ->
+    Inv ct (heap s) -> flat_recv ct l (heap s) cl d k ->
+    (forall sp, lookup_attr k a = Some sp -> exists fam, leaf_coll sp fam) ->
+    (assoc a d = None -> class_default k a = VMissing) ->
+    Inv ct (heap (snd (run_helper ct l (HWithoutItem a) hh s))).
+Proof. exact without_item_cow. Qed.
+
+(* the combined statement, with the operations covered as a computable predicate (owned_opa_b,
+   coq/Inst/OwnAll.v): obj.a = v and with_<a>(v, _inplace=True) on leaf attributes (scalar or
+   List/Set/Dict of scalars, no preparer) with a fresh argument; with_<a>(v) copy-on-write on
+   flat receivers; with_<item> / without_<item> in place and copy-on-write with any arguments;
+   copy.deepcopy of flat values; the caller building a container of scalars.
+   PARTIAL: the full statement quantifies over every operation (constructor, del,
+   update_/transform_/reset_, keyword attributes) and every flat table (preparers,
+   invalidated_by, nested spec classes / Any as elements, do_not_copy). *)
 Theorem C03_step_preserves_owned_partial :
   forall ct roots o s,
-    flat_table ct -> no_inval_b ct = true -> owned_opc_b ct (heap s) roots o = true ->
+    flat_table ct -> no_inval_b ct = true -> no_reserved_b ct = true ->
+    owned_opa_b ct (heap s) roots o = true ->
     TypeInv ct s -> Owned ct (heap s) ->
     TypeInv ct (snd (step ct roots o s)) /\ Owned ct (heap (snd (step ct roots o s))).
-Proof. exact step_preserves_owned_coll. Qed.
+Proof. exact step_preserves_owned_all. Qed.
 
-(* non-vacuity: a table with a List[int], a List[str], a Set[int] and a Dict[str,int]
+(* non-vacuity: a table with an int, a List[int], a List[str], a Set[int] and a Dict[str,int]
    attribute; the guards hold; conforming and ill-typed arguments; element insertion and
-   removal in place in the three families *)
+   removal in the three families, in place and copy-on-write; deepcopy *)
 Definition exA70 := mkattr 70 (TSet TInt) VMissing None 1 true false None None [].
 Definition exA80 := mkattr 80 (TDict TStr TInt) VMissing None 1 true false None None [].
 Definition exCT2 : ctable := [mkcls 1 [exA1; exA50; exA60; exA70; exA80] false false None [1] 1 [] None None].
@@ -410,16 +472,24 @@ Definition exH2 : list obj :=
    OList [VInt 5%Z]; OList [VStr 5%Z]; OSet [VInt 6%Z]; ODict [(VInt 1%Z, VInt 2%Z)]].
 Definition exRun2 (o : op) := step exCT2 [VRef 0] o (mkst exH2 0 None).
 Definition exGood (o : op) : bool :=
-  owned_opc_b exCT2 exH2 [VRef 0] o && owned_b exCT2 (heap (snd (exRun2 o))) && ti_b exCT2 (heap (snd (exRun2 o))).
+  owned_opa_b exCT2 exH2 [VRef 0] o && owned_b exCT2 (heap (snd (exRun2 o))) && ti_b exCT2 (heap (snd (exRun2 o))).
 
 Example C03_owned_guards_hold :
-  no_inval_b exCT2 = true /\ owned_b exCT2 exH2 = true /\ ti_b exCT2 exH2 = true /\
-  (* assignments: conforming list, ill-typed list (rejected), set, ill-keyed dict (rejected) *)
+  no_inval_b exCT2 = true /\ no_reserved_b exCT2 = true /\ owned_b exCT2 exH2 = true /\ ti_b exCT2 exH2 = true /\
+  (* assignments: conforming list, ill-typed list (rejected), set, ill-keyed dict (rejected), scalars *)
   exGood (OpSetAttr 0 50 (VRef 4)) = true /\ fst (exRun2 (OpSetAttr 0 50 (VRef 4))) = Ok VNone /\
   exGood (OpSetAttr 0 50 (VRef 5)) = true /\ fst (exRun2 (OpSetAttr 0 50 (VRef 5))) = Err ValueErr /\
   exGood (OpSetAttr 0 70 (VRef 6)) = true /\ fst (exRun2 (OpSetAttr 0 70 (VRef 6))) = Ok VNone /\
   exGood (OpSetAttr 0 80 (VRef 7)) = true /\ fst (exRun2 (OpSetAttr 0 80 (VRef 7))) = Err ValueErr /\
+  exGood (OpSetAttr 0 1 (VInt 9%Z)) = true /\ fst (exRun2 (OpSetAttr 0 1 (VInt 9%Z))) = Ok VNone /\
+  exGood (OpSetAttr 0 1 (VStr 9%Z)) = true /\ fst (exRun2 (OpSetAttr 0 1 (VStr 9%Z))) = Err TypeErr /\
   exGood (OpHelper 0 (HWith 50) (exArgs [VRef 4] true)) = true /\
+  (* copy-on-write with_<a>: the receiver is copied (cells 8..12), the argument goes into the copy *)
+  exGood (OpHelper 0 (HWith 50) (exArgs [VRef 4] false)) = true /\
+  fst (exRun2 (OpHelper 0 (HWith 50) (exArgs [VRef 4] false))) = Ok (VRef 8) /\
+  nth_error (heap (snd (exRun2 (OpHelper 0 (HWith 50) (exArgs [VRef 4] false))))) 8
+    = Some (OInst 1 [(1, VInt 3%Z); (50, VRef 4); (70, VRef 10); (80, VRef 11)]) /\
+  exGood (OpHelper 0 (HWith 50) (exArgs [VRef 5] false)) = true /\
   (* element helpers in place *)
   exGood (OpHelper 0 (HWithItem 50) (exArgs [VInt 7%Z] true)) = true /\
   nth_error (heap (snd (exRun2 (OpHelper 0 (HWithItem 50) (exArgs [VInt 7%Z] true))))) 1
@@ -428,17 +498,24 @@ Example C03_owned_guards_hold :
   fst (exRun2 (OpHelper 0 (HWithItem 50) (exArgs [VStr 7%Z] true))) = Err ValueErr /\
   exGood (OpHelper 0 (HWithItem 60) (exArgs [VStr 7%Z] true)) = true /\
   exGood (OpHelper 0 (HWithItem 70) (exArgs [VInt 9%Z] true)) = true /\
-  nth_error (heap (snd (exRun2 (OpHelper 0 (HWithItem 70) (exArgs [VInt 9%Z] true))))) 2
-    = Some (OSet [VInt 4%Z; VInt 9%Z]) /\
   exGood (OpHelper 0 (HWithItem 80) (exArgs [VStr 5%Z; VInt 6%Z] true)) = true /\
-  nth_error (heap (snd (exRun2 (OpHelper 0 (HWithItem 80) (exArgs [VStr 5%Z; VInt 6%Z] true))))) 3
-    = Some (ODict [(VStr 1%Z, VInt 2%Z); (VStr 5%Z, VInt 6%Z)]) /\
   exGood (OpHelper 0 (HWithoutItem 50) (exArgs [VInt 1%Z] true)) = true /\
-  nth_error (heap (snd (exRun2 (OpHelper 0 (HWithoutItem 50) (exArgs [VInt 1%Z] true))))) 1 = Some (OList []) /\
   exGood (OpHelper 0 (HWithoutItem 70) (exArgs [VInt 4%Z] true)) = true /\
   exGood (OpHelper 0 (HWithoutItem 80) (exArgs [VStr 1%Z] true)) = true /\
+  (* element helpers copy-on-write: the original list (cell 1) is untouched *)
+  exGood (OpHelper 0 (HWithItem 50) (exArgs [VInt 7%Z] false)) = true /\
+  nth_error (heap (snd (exRun2 (OpHelper 0 (HWithItem 50) (exArgs [VInt 7%Z] false))))) 1
+    = Some (OList [VInt 1%Z]) /\
+  exGood (OpHelper 0 (HWithItem 50) (exArgs [VStr 7%Z] false)) = true /\
+  exGood (OpHelper 0 (HWithItem 60) (exArgs [VStr 7%Z] false)) = true /\
+  exGood (OpHelper 0 (HWithItem 70) (exArgs [VInt 9%Z] false)) = true /\
+  exGood (OpHelper 0 (HWithItem 80) (exArgs [VStr 5%Z; VInt 6%Z] false)) = true /\
+  exGood (OpHelper 0 (HWithoutItem 50) (exArgs [VInt 1%Z] false)) = true /\
+  exGood (OpHelper 0 (HWithoutItem 70) (exArgs [VInt 4%Z] false)) = true /\
+  exGood (OpHelper 0 (HWithoutItem 80) (exArgs [VStr 1%Z] false)) = true /\
+  exGood (OpDeepCopy 0) = true /\
   (* the aliasing assignment of the counterexample is NOT covered: the argument is referenced *)
-  owned_opc_b exCT [OInst 1 [(1, VInt 3%Z); (50, VRef 1)]; OList []] [VRef 0] (OpSetAttr 0 60 (VRef 1)) = false.
+  owned_opa_b exCT [OInst 1 [(1, VInt 3%Z); (50, VRef 1)]; OList []] [VRef 0] (OpSetAttr 0 60 (VRef 1)) = false.
 Proof. vm_compute. repeat split. Qed.
 
 Print Assumptions C03_checked_before_stored.
@@ -479,5 +556,10 @@ Print Assumptions C03_setattr_preserves_owned.
 Print Assumptions C03_with_inplace_preserves_owned.
 Print Assumptions C03_with_item_inplace_preserves_owned.
 Print Assumptions C03_without_item_inplace_preserves_owned.
+Print Assumptions C03_deepcopy_flat_instance.
+Print Assumptions C03_mutate_attr_copy_on_write.
+Print Assumptions C03_with_copy_on_write.
+Print Assumptions C03_with_item_copy_on_write.
+Print Assumptions C03_without_item_copy_on_write.
 Print Assumptions C03_step_preserves_owned_partial.
 Print Assumptions C03_owned_guards_hold.
